@@ -8,6 +8,9 @@ harness/translate_funcs.py in session 3: `_iter_reset_field_items`, `_reset_roll
   kind 'harmless': a behaviour-preserving rewrite        -> the function must still translate and
                    Tie_<name>.lean must still compile UNCHANGED
 
+The last block repeats, one by one, the rewrite kinds that three independent behaviour-preserving refactorings
+of bumpver (harmless1..3.diff) used in the functions of this translator module.
+
 Usage: /venv/bin/python harness/dev/tie_experiments_A.py [name ...]
 Output of the last full run: harness/dev/tie_experiments_A.out.txt
 """
@@ -193,5 +196,100 @@ T.E[-1]["also"] = [("    if _is_cal_gt(old_vinfo, cur_cinfo):\n        logger.wa
                     "    if not _is_cal_gt(old_vinfo, cur_cinfo):\n        cur_vinfo = old_vinfo._replace(**cur_cinfo._asdict())\n"
                     "    else:\n        cur_vinfo = old_vinfo\n")]
 
+# ---- rewrite kinds met in the three independent behaviour-preserving refactorings (harmless1..3.diff) ----------------
+exp("isValidWeekPattern", F, "harmless", "generator over TUPLE literals, conjuncts commuted, elif/else -> separate ifs + fall-through",
+    "    has_yy_part = any(part in raw_pattern for part in [\"YYYY\", \"YY\", \"0Y\"])",
+    "    has_yy_part = any(part in raw_pattern for part in (\"YYYY\", \"YY\", \"0Y\"))")
+T.E[-1]["also"] = [
+    ("    has_vv_part = any(part in raw_pattern for part in [\"VV\"  , \"0V\"])", "    has_vv_part = any(part in raw_pattern for part in (\"VV\"  , \"0V\"))"),
+    ("    if has_yy_part and has_vv_part:", "    if has_vv_part and has_yy_part:"),
+]
+exp("parseLetterVersion", "setuptools_v65_version.py", "harmless", "`in` on TUPLE literals",
+    "        elif letter in [\"c\", \"pre\", \"preview\"]:", "        elif letter in (\"c\", \"pre\", \"preview\"):")
+T.E[-1]["also"] = [("        elif letter in [\"rev\", \"r\"]:", "        elif letter in (\"rev\", \"r\"):")]
+exp("hasOverlap", "parse.py", "harmless", "searching loop with an early `continue` and the test split in two ifs",
+    "        has_overlap = (\n            span.lineno == needle.lineno\n            # needle starts before (or at) span end\n"
+    "            and needle.start <= span.end\n            # needle ends after (or at) span start\n            and needle.end >= span.start\n"
+    "        )\n        if has_overlap:\n            return True\n",
+    "        if needle.lineno != span.lineno:\n            continue\n\n"
+    "        if needle.start <= span.end and needle.end >= span.start:\n            return True\n")
+exp("hasOverlap", "parse.py", "break", "the same `continue` form with `!=` -> `==`",
+    "        has_overlap = (\n            span.lineno == needle.lineno\n            # needle starts before (or at) span end\n"
+    "            and needle.start <= span.end\n            # needle ends after (or at) span start\n            and needle.end >= span.start\n"
+    "        )\n        if has_overlap:\n            return True\n",
+    "        if needle.lineno == span.lineno:\n            continue\n\n"
+    "        if needle.start <= span.end and needle.end >= span.start:\n            return True\n")
+exp("hasOverlap", "parse.py", "break", "`needle.start <= span.end` -> `<` (proof now compares propositions: still caught)",
+    "            and needle.start <= span.end", "            and needle.start < span.end")
+exp("resetRolloverFields", F, "harmless", "if/else assignment into the kwargs dict -> ONE conditional expression with branches of different types",
+    "        if value.isdigit():\n            cur_kwargs[field] = int(value)\n        else:\n            cur_kwargs[field] = value\n",
+    "        cur_kwargs[field] = int(value) if value.isdigit() else value\n")
+exp("resetRolloverFields", F, "break", "the same conditional expression with the test negated",
+    "        if value.isdigit():\n            cur_kwargs[field] = int(value)\n        else:\n            cur_kwargs[field] = value\n",
+    "        cur_kwargs[field] = value if value.isdigit() else int(value)\n")
+exp("incrNumeric", F, "harmless", "table subscript inlined into `_replace(pytag=…)`; `int(bid)` bound once",
+    "        pytag     = version.PEP440_TAG_BY_TAG[tag]\n        cur_vinfo = cur_vinfo._replace(pytag=pytag)\n",
+    "        cur_vinfo = cur_vinfo._replace(pytag=version.PEP440_TAG_BY_TAG[tag])\n")
+T.E[-1]["also"] = [("    if int(cur_vinfo.bid) < 1000:\n        cur_vinfo = cur_vinfo._replace(bid=str(int(cur_vinfo.bid) + 1000))\n",
+                    "    bid_num = int(cur_vinfo.bid)\n    if bid_num < 1000:\n        cur_vinfo = cur_vinfo._replace(bid=str(bid_num + 1000))\n")]
+
+def main():
+    """as tie_experiments.main, but EVERY file of this translator module is written for every experiment (the scratch
+    tree differs from /repo in one function only), so that a callee left untranslatable by the previous experiment
+    cannot make the next one fail for the wrong reason"""
+    import shutil
+    import translate_funcs
+    only = set(sys.argv[1:])
+    results = []
+    for e in T.E:
+        if only and e["name"] not in only:
+            continue
+        if os.path.exists(T.SCRATCH):
+            shutil.rmtree(T.SCRATCH)
+        shutil.copytree("/repo/src", os.path.join(T.SCRATCH, "src"))
+        path = os.path.join(T.SCRATCH, "src", "bumpver", e["file"])
+        src = open(path, encoding="utf-8").read()
+        for old, new in [(e["old"], e["new"])] + e.get("also", []):
+            if src.count(old) != 1:
+                print("!! edit text occurs %d times: %r" % (src.count(old), old))
+                return 2
+            src = src.replace(old, new)
+        open(path, "w", encoding="utf-8").write(src)
+        os.environ["VERIF_REPO"] = T.SCRATCH
+        rep = []
+        files = translate_funcs.generate(rep)
+        del os.environ["VERIF_REPO"]
+        fname = "F_%s.lean" % e["name"]
+        err = [x for x in rep if x[1] == fname][0][2]
+        for name, content in files.items():
+            fp = os.path.join(T.GEN, name)
+            if not os.path.exists(fp) or open(fp, encoding="utf-8").read() != content:
+                open(fp, "w", encoding="utf-8").write(content)
+        b = T.run(["timeout", "600", "lake", "build", "BumpverVerif.Gen.F_%s" % e["name"]], cwd=T.LEAN)
+        if b.returncode != 0:
+            outcome, ok = "generated file does not compile", False
+        else:
+            t = T.run(["timeout", "300", "lake", "env", "lean", "BumpverVerif/Proofs/Tie_%s.lean" % e["name"]], cwd=T.LEAN)
+            ok = t.returncode == 0 and "error" not in t.stdout
+            if ok:
+                outcome = "Tie_%s.lean compiles" % e["name"]
+            else:
+                first = [ln for ln in t.stdout.splitlines() if "error" in ln][:1]
+                outcome = "Tie_%s.lean FAILS: %s" % (e["name"], (first[0] if first else "rc=%d" % t.returncode)[:110])
+        if err is not None:
+            outcome = "UNTRANSLATABLE (%s); %s" % (err.reason, outcome[:60])
+        verdict = "as intended" if ok == (e["kind"] == "harmless") else "** NOT as intended **"
+        results.append((e, outcome, verdict))
+        print("%-20s %-9s %-70s -> %s [%s]" % (e["name"], e["kind"], e["label"], outcome, verdict), flush=True)
+    shutil.rmtree(T.SCRATCH, ignore_errors=True)
+    r = T.run(["/venv/bin/python", os.path.join(T.HARNESS, "translate.py")])
+    print(r.stdout.strip())
+    mods = sorted({"BumpverVerif.Proofs.Tie_%s" % e["name"] for e, _, _ in results})
+    if mods:
+        b = T.run(["timeout", "1200", "lake", "build"] + mods, cwd=T.LEAN)
+        print("restore build:", "ok" if b.returncode == 0 else b.stdout[-2000:])
+    return 0
+
+
 if __name__ == "__main__":
-    sys.exit(T.main())
+    sys.exit(main())
